@@ -255,7 +255,10 @@ def main(argv=None):
         evidence["coverage"]["violation_mechanisms"] = sorted({v["mechanism"] for v in fresh})
     if not args.replay and not args.only:
         # runs against a scratch copy (self-test) must not overwrite the evidence of the real tree
-        edir = os.path.join(core.VERIF_ROOT, ".work", "evidence-scratch") if os.environ.get("VERIF_REPO_ROOT") else os.path.join(core.VERIF_ROOT, "evidence")
+        # runs against a scratch copy, and runs of the self-test against a deliberately broken /repo, must not overwrite the
+        # evidence of the unchanged tree
+        scratch_run = os.environ.get("VERIF_REPO_ROOT") or os.environ.get("VERIF_SELFTEST")
+        edir = os.path.join(core.VERIF_ROOT, ".work", "evidence-scratch") if scratch_run else os.path.join(core.VERIF_ROOT, "evidence")
         os.makedirs(edir, exist_ok=True)
         epath = os.path.join(edir, prop + ".json")
         with open(epath + ".tmp", "w") as f:
